@@ -10,6 +10,15 @@ BASE = ("cd /repo && env -u TRACKLIB_VERIF_TRACE /venv/bin/python -m pytest -ra 
 
 # pid -> (module(s), technique, level text, level note, design ref)
 CHECKS = {
+    "C20": ("Projection", "TLA+ exact nearest-point definition (Geo2D.tla fractions) + transcription of proj_segment / proj_polyligne "
+            "case analysis checked by TLC (pinned vertical branch refuted = known finding); results recorded from proj_segment, "
+            "proj_polyligne and mapOnTrack are judged by ProjectionTrace.tla (code->spec trace validation)",
+            "TLC shows on every lattice segment / 3-vertex polyline x query that all non-vertical branches return a point of the "
+            "claimed segment at the exact minimum distance; every non-degenerate segment of a 4x4 (thorough 5x5) lattice x 36 "
+            "queries, every 3-vertex (4-vertex) polyline of a 3x3 lattice x 25 queries and random 2-6 vertex polylines with "
+            "zero-length / horizontal / vertical / oblique segments are projected for real and each result is judged by TLC.",
+            "TLC 1.8; integer coordinates -5..17; floats abstracted to the lattice of exact answers (denominator |AB|^2); "
+            "vertical segments are a recorded known finding (pinned by test_geometry.testProjSegment)", "5/C20"),
     "C08": ("GridIndex", "TLA+ exact half-open crossing predicate + transcription of the cell enumeration and unit conversion, "
             "checked by TLC; registered grids and point/segment/track/neighbourhood queries recorded from SpatialIndex are "
             "judged by GridIndexTrace.tla (code->spec, extras allowed)",
